@@ -97,3 +97,6 @@ func sameStart[T any](a, b []T) bool { return cap(a) > 0 && cap(b) > 0 && &a[:1]
 
 // verifTriggerSink marks a term as part of a quantifier trigger (lemma `trigger` clauses).
 func verifTriggerSink[T any](x T) {}
+
+// ghostHas(name, key, elem): membership in a set-valued ghost field.
+func ghostHas(name string, key interface{}, elem string) bool { return false }
